@@ -420,7 +420,8 @@ static bool pick_relaxation(vh::Rng& rng, Cfg& c, int n) {
   return true;
 }
 
-static void exact_instance(vh::Trace& tr, const Sys& s, vh::Rng& rng, long i, const std::string& scratch) {
+// returns false (nothing emitted) when the random construction did not come out: the caller draws again
+static bool exact_instance(vh::Trace& tr, const Sys& s, vh::Rng& rng, long i, const std::string& scratch) {
   const int nv = (int)s.vox.size(), nb = (int)s.bins.size();
   Cfg c;
   c.id = i + 1;
@@ -447,7 +448,9 @@ static void exact_instance(vh::Trace& tr, const Sys& s, vh::Rng& rng, long i, co
   c.uInf = rng.range(0, 2) == 0;
   if (!c.uInf) { const int* u = ubs[rng.range(0, 5)]; c.uN = u[0]; c.uK = u[1]; }
   c.viaParse = rng.range(0, 2) == 0;
-  c.additive = true;
+  // without additive term the mean of a bin is (P lambda)_b itself: every bin then sees voxels of ONE class only, all
+  // voxels of a class have the same value 2^class, so that (P lambda)_b = 2^class (P 1)_b
+  c.additive = rng.range(0, 3) != 0;
   const bool emptyColumn = !c.prior && rng.range(0, 5) == 0;   // a voxel no bin sees (denominator 0 -> thresholded, gradient 0)
 
   // ---- denominator targets: D_v = 2^kv = dData_v + 2 beta s_v with dData_v > 0
@@ -461,12 +464,19 @@ static void exact_instance(vh::Trace& tr, const Sys& s, vh::Rng& rng, long i, co
   }
   // ---- per bin: c_b = 2^ce (y_b = c_b (P 1)_b), weight of a matrix element in the column sums 2^(3 - ce)
   const int lmax = rng.coin() ? 2 : 4, jmin = lmax == 2 ? 1 : 2;
-  std::vector<int> ce(nb), jb(nb);
+  std::vector<int> ce(nb), jb(nb), cls_b(nb, -1), cls_v(nv, -1);
+  if (!c.additive) for (int v = 0; v < nv; ++v) cls_v[v] = rng.range(0, 2);
   for (int b = 0; b < nb; ++b) {
-    ce[b] = rng.range(0, 3);
-    const int jlo = jmin, jhi = std::min(3, ce[b] + 2);
-    jb[b] = rng.range(jlo, std::max(jlo, jhi));
-    if (ce[b] - jb[b] < -2) ce[b] = jb[b] - 2;
+    if (c.additive) {
+      ce[b] = rng.range(0, 3);
+      const int jlo = jmin, jhi = std::min(3, ce[b] + 2);
+      jb[b] = rng.range(jlo, std::max(jlo, jhi));
+      if (ce[b] - jb[b] < -2) ce[b] = jb[b] - 2;
+    } else {
+      cls_b[b] = rng.range(0, 2);
+      jb[b] = cls_b[b];
+      ce[b] = rng.range(std::max(0, jb[b] - 2), 3);
+    }
   }
   // ---- columns of P: sum_b P_bv 2^(3 - ce_b) = 8 dData_v
   std::vector<std::vector<std::pair<int, int>>> rows(nb);
@@ -477,8 +487,9 @@ static void exact_instance(vh::Trace& tr, const Sys& s, vh::Rng& rng, long i, co
     std::vector<int> order(nb);
     for (int b = 0; b < nb; ++b) order[b] = b;
     for (int b = nb - 1; b > 0; --b) std::swap(order[b], order[rng.next() % (b + 1)]);
-    const int pmax = std::max(3, (int)(remaining / 120) + 1);
+    const int pmax = std::max(3, (int)(remaining / (c.additive ? 120 : 40)) + 1);
     std::vector<std::pair<int, int>> col;   // (bin, weight)
+    if (!c.additive) order.erase(std::remove_if(order.begin(), order.end(), [&](int b) { return cls_b[b] != cls_v[v]; }), order.end());
     for (int b : order) {
       if (remaining == 0) break;
       const long om = 1L << (3 - ce[b]);
@@ -505,18 +516,19 @@ static void exact_instance(vh::Trace& tr, const Sys& s, vh::Rng& rng, long i, co
         break;
       }
     }
+    if (remaining != 0) return false;
     for (auto& e : col) rows[e.first].push_back({ v + 1, e.second });
   }
   Matrix m;
   set_matrix(s, m, rows);
   // ---- image and data
   ExactData d;
-  for (int v = 0; v < nv; ++v) d.lam.push_back(rng.range(0, lmax));
+  for (int v = 0; v < nv; ++v) d.lam.push_back(c.additive ? rng.range(0, lmax) : (1 << cls_v[v]));
   std::vector<float> yf(nb), af(nb);
   for (int b = 0; b < nb; ++b) {
     int p1 = 0, pl = 0;
     for (auto& e : rows[b]) { p1 += e.second; pl += e.second * d.lam[e.first - 1]; }
-    if (p1 == 0) { d.a.push_back(rng.range(1, 4)); d.yq.push_back(0); }
+    if (p1 == 0) { d.a.push_back(c.additive ? rng.range(1, 4) : 0); d.yq.push_back(0); }
     else {
       const int db = p1 << jb[b];                       // d_b = (P lambda)_b + a_b
       d.a.push_back(db - pl);
@@ -531,14 +543,15 @@ static void exact_instance(vh::Trace& tr, const Sys& s, vh::Rng& rng, long i, co
   emit_config(tr, s, c, m);
   tr.emit(vh::Json("Data").num("cfg", c.id).arr("yq", d.yq).arr("a", d.a));
   Engine e;
-  make_engine(e, s, m, yf, af, true, scratch);
+  make_engine(e, s, m, yf, af, c.additive, scratch);
   std::string msg;
   const bool cerr = vh::threw([&] { configure(e, s, c, scratch); }, &msg);
-  if (cerr) { tr.emit(vh::Json("ConfigureError").num("cfg", c.id).str("msg", msg.substr(0, 160))); return; }
+  if (cerr) { tr.emit(vh::Json("ConfigureError").num("cfg", c.id).str("msg", msg.substr(0, 160))); return true; }
   std::vector<float> lf(d.lam.begin(), d.lam.end());
   const Scales sc{ 18, 4, 10 };
   run_once(tr, s, e, c, "single", k - 1, k, k, *image_from(s, lf), sc, rng.range(0, 4) == 0, false);
   remove_outputs(e, k);
+  return true;
 }
 
 // ---------------------------------------------------------------- mode runs
@@ -696,7 +709,8 @@ int main(int argc, char** argv) {
   vh::Rng rng(vh::seed_from_env());
   Sys s = make_sys();
   if (mode == "exact") {
-    for (long i = 0; i < count; ++i) exact_instance(tr, s, rng, i, scratch);
+    for (long i = 0; i < count; ++i)
+      for (int tries = 0; tries < 20 && !exact_instance(tr, s, rng, i, scratch); ++tries) {}
   } else if (mode == "runs") {
     long cfgid = 0;
     for (long i = 0; i < count; ++i) {
